@@ -32,6 +32,7 @@ type PhaseSpec struct {
 	Name    string            `json:"name"`
 	Class   string            `json:"class"`
 	Objects []verifphase.PObj `json:"objects"`
+	Slices  []SliceSpec       `json:"slices,omitempty"` // C04 "slices" stream: ObjectSlices referenced by the phase
 }
 
 type SetSpec struct {
@@ -52,7 +53,7 @@ type SetEnv struct {
 }
 
 type Step struct {
-	Op     string             `json:"op"` // reconcile | phase | env | lifecycle | delete | editPayload | restart | gc
+	Op     string             `json:"op"` // reconcile | phase | env | lifecycle | delete | editPayload | restart | delSlice
 	Set    string             `json:"set"`
 	Value  string             `json:"value"`
 	Orphan bool               `json:"orphan"`
@@ -138,6 +139,9 @@ func templatePhases(ps []PhaseSpec) []corev1alpha1.ObjectSetTemplatePhase {
 		tp := corev1alpha1.ObjectSetTemplatePhase{Name: p.Name, Class: p.Class}
 		for _, o := range p.Objects {
 			tp.Objects = append(tp.Objects, o.Build())
+		}
+		for _, sl := range p.Slices {
+			tp.Slices = append(tp.Slices, sl.Name)
 		}
 		out = append(out, tp)
 	}
@@ -228,6 +232,21 @@ func controllerOfStr(refs []interface{}) string {
 	return strings.Join(out, ",")
 }
 
+// remotePhasesStr prints status.remotePhases as name:uid, in the order of the status list.
+func remotePhasesStr(body map[string]interface{}) string {
+	st, _ := body["status"].(map[string]interface{})
+	rps, _ := st["remotePhases"].([]interface{})
+	var out []string
+	for _, r := range rps {
+		m, ok := r.(map[string]interface{})
+		if !ok {
+			continue
+		}
+		out = append(out, fmt.Sprintf("%v:%v", m["name"], m["uid"]))
+	}
+	return "rp=[" + strings.Join(out, ",") + "]"
+}
+
 func statusStr(body map[string]interface{}) string {
 	st, _ := body["status"].(map[string]interface{})
 	rev := int64(0)
@@ -273,7 +292,11 @@ func (y *sys) setEventsStr(log []*verifstore.Request, phases bool) string {
 				out = append(out, "P "+r.Key.Kind+"/"+r.Key.Name+" "+errOr(r.Err, "ok"))
 			}
 		case "status":
-			out = append(out, "S "+r.Key.Name+" "+errOr(r.Err, "ok")+" "+statusStr(r.Body))
+			ev := "S " + r.Key.Name + " " + errOr(r.Err, "ok") + " " + statusStr(r.Body)
+			if !phases { // ObjectSets report the phase objects they delegate to
+				ev += " " + remotePhasesStr(r.Body)
+			}
+			out = append(out, ev)
 		case "create":
 			out = append(out, "C "+r.Key.Kind+"/"+r.Key.Name+" "+errOr(r.Err, "ok"))
 		case "delete":
@@ -317,7 +340,7 @@ func (y *sys) setStr(u *unstructured.Unstructured) string {
 	if life == "" {
 		life = "Active"
 	}
-	return fmt.Sprintf("%s{g=%d,d=%s,f=%s,life=%s,%s}", u.GetName(), u.GetGeneration(), d, fin, life, statusStr(u.Object))
+	return fmt.Sprintf("%s{g=%d,d=%s,f=%s,life=%s,%s %s}", u.GetName(), u.GetGeneration(), d, fin, life, statusStr(u.Object), remotePhasesStr(u.Object))
 }
 
 func (y *sys) phaseStr(u *unstructured.Unstructured) string {
@@ -378,6 +401,9 @@ func newSys(scn Scn) *sys {
 	for _, sp := range scn.Sets {
 		y.putSet(sp)
 	}
+	for _, sp := range scn.Sets {
+		y.putSlices(sp)
+	}
 	nsObj := &unstructured.Unstructured{Object: map[string]interface{}{"apiVersion": "v1", "kind": "Namespace"}}
 	nsObj.SetName(NS)
 	y.env.Store.PutQuiet(nsObj)
@@ -389,6 +415,11 @@ func newSys(scn Scn) *sys {
 		for _, ph := range sp.Phases {
 			for _, p := range ph.Objects {
 				verdicts[p.Kind+"/"+p.Name] = p.DryRun
+			}
+			for _, sl := range ph.Slices {
+				for _, p := range sl.Objects {
+					verdicts[p.Kind+"/"+p.Name] = p.DryRun
+				}
 			}
 		}
 	}
@@ -532,6 +563,9 @@ func (y *sys) doStep(st Step) string {
 		return "-"
 	case "restart":
 		y.env.Cache.Restart()
+		return "-"
+	case "delSlice": // a third party (garbage collector, user) deletes an ObjectSlice
+		y.env.Store.Remove(y.sliceKey(st.Set))
 		return "-"
 	}
 	return "BAD-STEP"
